@@ -14,6 +14,7 @@ import (
 	"encoding/json"
 	"fmt"
 	"os"
+	"sort"
 	"strconv"
 	"strings"
 	"sync"
@@ -278,6 +279,10 @@ func reportRaces(c *vf.Ctx, rs []vf.RaceReport) {
 	for _, r := range rs {
 		c.Count("race_reports", 1)
 		ow := raceOwners(r.Text)
+		for i := range ow {
+			ow[i] = stripGenerics(ow[i])
+		}
+		sort.Strings(ow)
 		key := strings.Join(ow, " <-> ")
 		raceMu.Lock()
 		dup := raceSeen[key]
@@ -292,7 +297,7 @@ func reportRaces(c *vf.Ctx, rs []vf.RaceReport) {
 		}
 		switch {
 		case len(ow) == 2 && isInside(ow[0]) && isInside(ow[1]):
-			c.Violation("race:"+stripGenerics(ow[0])+" <-> "+stripGenerics(ow[1]), "data race with both access stacks inside workerpool/syncutils: "+key, replayRec{Mode: "race", Detail: detail(map[string]string{"report": txt})})
+			c.Violation("race:"+ow[0]+" <-> "+ow[1], "data race with both access stacks inside workerpool/syncutils: "+key, replayRec{Mode: "race", Detail: detail(map[string]string{"report": txt})})
 		case len(ow) == 2 && (strings.HasPrefix(ow[0], "main.") && strings.HasPrefix(ow[1], "main.")):
 			c.Inconclusive("data race inside the harness itself: " + key)
 		default:
@@ -328,20 +333,20 @@ func run(c *vf.Ctx) {
 		switch r.Mode {
 		case "gated":
 			b, _ := json.Marshal(r.Gated)
-			res := c.RunChild(vf.ChildOpts{Name: "gated1", Args: []string{string(b)}, Timeout: time.Minute})
+			res := runChild(c, vf.ChildOpts{Name: "gated1", Args: []string{string(b)}, Timeout: time.Minute})
 			if res.TimedOut {
 				c.Inconclusive("replay child timed out")
 			}
 		case "group":
 			b, _ := json.Marshal(r.Group)
-			c.RunChild(vf.ChildOpts{Name: "group1", Args: []string{string(b)}, Timeout: time.Minute})
+			runChild(c, vf.ChildOpts{Name: "group1", Args: []string{string(b)}, Timeout: time.Minute})
 		case "stress":
 			b, _ := json.Marshal(r.Stress)
-			res := c.RunChild(vf.ChildOpts{Name: "stress1", Args: []string{string(b)}, Race: r.Stress.Race, Timeout: 3 * time.Minute})
+			res := runChild(c, vf.ChildOpts{Name: "stress1", Args: []string{string(b)}, Race: r.Stress.Race, Timeout: 3 * time.Minute})
 			reportRaces(c, res.Races)
 		case "race":
 			lo := 0
-			res := c.RunChild(vf.ChildOpts{Name: "stress", Args: []string{strconv.Itoa(lo), "60", "race"}, Race: true, Timeout: 5 * time.Minute})
+			res := runChild(c, vf.ChildOpts{Name: "stress", Args: []string{strconv.Itoa(lo), "60", "race"}, Race: true, Timeout: 5 * time.Minute})
 			reportRaces(c, res.Races)
 		}
 		return
@@ -369,7 +374,7 @@ func run(c *vf.Ctx) {
 		for lo := 0; lo < len(list); lo += chunk {
 			lo := lo
 			spawn(func() {
-				res := c.RunChild(vf.ChildOpts{Name: "gated", Args: []string{strconv.Itoa(lo), strconv.Itoa(lo + chunk)}, Timeout: 4 * time.Minute})
+				res := runChild(c, vf.ChildOpts{Name: "gated", Args: []string{strconv.Itoa(lo), strconv.Itoa(lo + chunk)}, Timeout: 4 * time.Minute})
 				if res.TimedOut || res.ExitCode != 0 {
 					childDied(c, fmt.Sprintf("gated child [%d,%d)", lo, lo+chunk), res)
 				}
@@ -391,7 +396,7 @@ func run(c *vf.Ctx) {
 	for lo := 0; lo < nGroup; lo += 100 {
 		lo := lo
 		spawn(func() {
-			res := c.RunChild(vf.ChildOpts{Name: "group", Args: []string{strconv.Itoa(lo), strconv.Itoa(min(lo+100, nGroup))}, Timeout: 4 * time.Minute})
+			res := runChild(c, vf.ChildOpts{Name: "group", Args: []string{strconv.Itoa(lo), strconv.Itoa(min(lo+100, nGroup))}, Timeout: 4 * time.Minute})
 			if res.TimedOut || res.ExitCode != 0 {
 				childDied(c, fmt.Sprintf("group child [%d..)", lo), res)
 			}
@@ -406,7 +411,7 @@ func run(c *vf.Ctx) {
 				if race {
 					mode = "race"
 				}
-				res := c.RunChild(vf.ChildOpts{Name: "stress", Args: []string{strconv.Itoa(lo), strconv.Itoa(min(lo+per, n)), mode}, Race: race, Timeout: 6 * time.Minute})
+				res := runChild(c, vf.ChildOpts{Name: "stress", Args: []string{strconv.Itoa(lo), strconv.Itoa(min(lo+per, n)), mode}, Race: race, Timeout: 6 * time.Minute})
 				reportRaces(c, res.Races)
 				switch {
 				case res.Deadlock:
@@ -450,7 +455,10 @@ func run(c *vf.Ctx) {
 			fp, cfg := fp, cfg
 			spawn(func() {
 				b, _ := json.Marshal(cfg)
-				res := c.RunChild(vf.ChildOpts{Name: "confirm", Args: []string{string(b)}, Timeout: 2 * time.Minute})
+				var res vf.ChildResult
+				for try := 0; try < 4 && !res.Deadlock; try++ { // the worker's select between shutdown signal and task is random: a schedule need not hang every time
+					res = runChild(c, vf.ChildOpts{Name: "confirm", Args: []string{string(b)}, Timeout: 2 * time.Minute})
+				}
 				var pre *outcome
 				var steps []string
 				for _, r := range res.Records {
@@ -466,7 +474,12 @@ func run(c *vf.Ctx) {
 				}
 				c.Count("confirm_children", 1)
 				if !res.Deadlock {
-					c.Inconclusive(fmt.Sprintf("structural verdict %s for schedule %s was not confirmed by the runtime dead-lock detector (exit=%d timeout=%v)", fp, cfg.key(), res.ExitCode, res.TimedOut))
+					if res.ExitCode != 0 || res.TimedOut {
+						c.Inconclusive(fmt.Sprintf("confirmation child for %s / %s did not finish (exit=%d timeout=%v %s)", fp, cfg.key(), res.ExitCode, res.TimedOut, res.Fatal))
+					} else {
+						c.Count("confirm_not_reproduced", 1)
+						c.Note(fmt.Sprintf("structural verdict %s for schedule %s did not recur in 4 runtime-detector runs (schedule depends on a random select)", fp, cfg.key()))
+					}
 					return
 				}
 				c.Count("deadlocks_confirmed_by_runtime", 1)
@@ -521,6 +534,20 @@ func childDied(c *vf.Ctx, what string, res vf.ChildResult) {
 		return
 	}
 	c.Inconclusive(fmt.Sprintf("%s did not finish (timeout=%v exit=%d %s) at %s", what, res.TimedOut, res.ExitCode, res.Fatal, res.LastMark))
+}
+
+// runChild retries a child whose process could not even be started (fork/exec
+// failure on a loaded machine); nothing about a verdict depends on it.
+func runChild(c *vf.Ctx, o vf.ChildOpts) vf.ChildResult {
+	var res vf.ChildResult
+	for try := 0; try < 4; try++ {
+		res = c.RunChild(o)
+		if !(res.ExitCode == -1 && strings.HasPrefix(res.Fatal, "start:")) {
+			break
+		}
+		time.Sleep(time.Duration(try+1) * 500 * time.Millisecond)
+	}
+	return res
 }
 
 func trunc(s string, n int) string {
